@@ -43,22 +43,24 @@ def main():
             sh('git -C /repo worktree remove --force %s' % wt); shutil.rmtree(wt, ignore_errors=True)
     if only:
         print(json.dumps(out, indent=1)); return 0
-    rc, o = sh('git -C /repo status --porcelain --untracked-files=no')
-    if o.strip():
-        print('refusing: /repo has local modifications'); return 2
-    rca, oa = sh('git -C /repo apply %s' % patch)
+    # the checks run against a scratch worktree with the change applied (VERIF_REPO), writing evidence/replays to a scratch
+    # directory (VERIF_OUT): /repo itself and the committed evidence are never touched
+    wt = tempfile.mkdtemp(prefix='wt-seeded-', dir='/tmp'); os.rmdir(wt)
+    outdir = tempfile.mkdtemp(prefix='seedout-', dir='/tmp')
+    sh('git -C /repo worktree add --detach %s HEAD' % wt)
     out['checks'] = {}
     try:
+        rca, oa = sh('git apply %s' % patch, cwd=wt)
         if rca != 0:
-            out['error'] = 'patch does not apply to /repo: ' + oa[-300:]
+            out['error'] = 'patch does not apply: ' + oa[-300:]
         else:
             for p in props:
                 t0 = time.time()
-                rc, o = sh('./vcheck %s --tier %s' % (p, tier), cwd=VERIF, timeout=7200)
+                rc, o = sh('VERIF_REPO=%s VERIF_OUT=%s ./vcheck %s --tier %s' % (wt, outdir, p, tier), cwd=VERIF, timeout=7200)
                 lines = [l for l in o.split('\n') if l.startswith('VIOLATION') or l.startswith('KNOWN-FINDING') or 'predicate fails' in l or 'first disagreement' in l]
                 out['checks'][p] = {'rc': rc, 'wall': round(time.time() - t0, 1), 'lines': [l[:400] for l in lines[:6]]}
     finally:
-        sh('git -C /repo checkout -- .')
+        sh('git -C /repo worktree remove --force %s' % wt); shutil.rmtree(wt, ignore_errors=True); shutil.rmtree(outdir, ignore_errors=True)
     out['caught'] = any(c['rc'] == 1 for c in out['checks'].values())
     print(json.dumps(out, indent=1))
     return 0
